@@ -79,6 +79,7 @@ def _mk_cond(kind, regime):
             w.ld_rule(p.Lambda, -(w.logdet(S0) + xp.sum(xp.log(1.0 + D), axis=1)), "GtvLemmas.det_inv_of_mul_eq_one")
         w.equal("mu=Mx+b", p.mu, xp.einsum("ij,nj->ni", par["M"][0], x) + par["b"][0][None])
         w.equal("Sigma=AA'+A_k diag(link(Wx+w0)) A_k'", p.Sigma, Sx)
+        w.equal("get_conditional_cov(x)=Sigma(x)", obj.get_conditional_cov(x), Sx)            # REAL, invert=False
         wf_measure(w, "p(y|x)", p, is_pdf=True)
     return ob
 
@@ -150,18 +151,25 @@ def _tilted(w, px, g, wv, nu1, c1, Aq, aq, tag):
     nux = xp.einsum("nij,nj->ni", px["L"], px["mu"])
     cx = -(0.5 * xp.einsum("ni,ni->n", px["mu"], nux) + 0.5 * dx * w.log2pi() + 0.5 * px["ld"])
 
-    def moment(nu_extra, c_extra):
+    def moment(nu_extra, c_extra, fourth=None):
         nu = nux + nu1 + nu_extra
         c = cx + c1 + c_extra
         S1i = w.inv(L1)
         lnm = 0.5 * xp.einsum("ni,nij,nj->n", nu, S1i, nu) + 0.5 * dx * w.log2pi() - 0.5 * w.logdet(L1) + c
         m = xp.einsum("nij,nj->ni", S1i, nu)
         q = xp.einsum("ni,ni->n", Aq, m) + aq
-        return xp.exp(lnm) * (q ** 2 + xp.einsum("ni,nij,nj->n", Aq, S1i, Aq))
+        vq = xp.einsum("ni,nij,nj->n", Aq, S1i, Aq)
+        if fourth is None:
+            return xp.exp(lnm) * (q ** 2 + vq)
+        # E'[h^2 q^2] for h = w'x + b0 (Isserlis): E[h^2]E[q^2] + 2 Cov(h,q)^2 + 4 E[h]E[q]Cov(h,q)
+        eh = xp.einsum("i,ni->n", wv, m) + fourth
+        vh = xp.einsum("i,nij,j->n", wv, S1i, wv)
+        chq = xp.einsum("i,nij,nj->n", wv, S1i, Aq)
+        return xp.exp(lnm) * ((vh + eh ** 2) * (vq + q ** 2) + 2.0 * chq ** 2 + 4.0 * eh * q * chq)
     return moment
 
 
-def _mk_lb_integrals(kind):
+def _mk_lb_integrals(kind, fourth=False):
     def ob(w):
         xp = w.xp
         obj, par = gen_hetero(w, kind, "square")
@@ -170,7 +178,10 @@ def _mk_lb_integrals(kind):
         a_i = w.arr("ai", "Dy")
         y = w.arr("y", "N", "Dy")
         om = w.pos("om", "N")
-        val = obj._lower_bound_integrals(p_x, y, W_i, a_i, om)            # REAL
+        if fourth:
+            val, val4 = obj._lower_bound_integrals(p_x=p_x, y=y, W_i=W_i, a_i=a_i, omega_star=om, compute_fourth_order=True)   # REAL
+        else:
+            val = obj._lower_bound_integrals(p_x, y, W_i, a_i, om)        # REAL
         b0 = w0[0]
         # q(x) = a_i'(y_n - b) - a_i' M x
         Aq = -xp.einsum("d,di->i", a_i, par["M"][0])[None] + 0.0 * px["mu"]
@@ -182,6 +193,7 @@ def _mk_lb_integrals(kind):
             c1 = -f - 0.5 * g * (b0 ** 2 - om ** 2) + 0.5 * b0
             moment = _tilted(w, px, g, wv, nu1, c1, Aq, aq, "e")
             spec = moment(0.0 * nu1, 0.0 * c1)
+            spec4 = moment(0.0 * nu1, 0.0 * c1, fourth=b0) if fourth else None
         else:
             g = xp.tanh(om) / om
             nu1 = -(g * b0)[:, None] * wv[None]
@@ -189,7 +201,11 @@ def _mk_lb_integrals(kind):
             moment = _tilted(w, px, g, wv, nu1, c1, Aq, aq, "c")
             ln2 = xp.log(2.0 + 0.0 * om)
             spec = moment(wv[None] + 0.0 * nu1, b0 - ln2) + moment(-wv[None] + 0.0 * nu1, -b0 - ln2) - moment(0.0 * nu1, 0.0 * c1)
+            spec4 = (moment(wv[None] + 0.0 * nu1, b0 - ln2, fourth=b0) + moment(-wv[None] + 0.0 * nu1, -b0 - ln2, fourth=b0)
+                     - moment(0.0 * nu1, 0.0 * c1, fourth=b0)) if fourth else None
         w.equal("lower_bound_integral=E[(a'(y-Mx-b))^2 * surrogate of link/(1+link)]", xp.reshape(val, (w.size("N"),)), spec)
+        if fourth:
+            w.equal("fourth_order=E[h^2 (a'(y-Mx-b))^2 * surrogate]", xp.reshape(val4, (w.size("N"),)), spec4)
     return ob
 
 
@@ -323,6 +339,9 @@ for _kind in ("exp", "coshm1"):
            axioms=G6, order={("Dy", "Dy"): False})(_mk_kfunc(_kind))
     REG.ob(f"{_cls}._lower_bound_integrals", sorts=["N", "Dx", "Dy"], funcs=[f"approximate_conditional.{_cls}._lower_bound_integrals"],
            axioms=G6, lemmas=["GtvLemmas.det_rank_one_update"], order={("Dy", "Dy"): False})(_mk_lb_integrals(_kind))
+    REG.ob(f"{_cls}._lower_bound_integrals/fourth_order", sorts=["N", "Dx", "Dy"], funcs=[f"approximate_conditional.{_cls}._lower_bound_integrals",
+           "measure.GaussianMeasure.integrate_general_quartic_inner"],
+           axioms=G6, lemmas=["GtvLemmas.det_rank_one_update"], order={("Dy", "Dy"): False})(_mk_lb_integrals(_kind, True))
 
 
 # ------------------------------------------------------------------ (b) rectified-linear link: building blocks of its lower bound
@@ -419,3 +438,59 @@ for _fourth in (False, True):
 # callees' contracts in the exp / cosh-1 obligations above; the ReLU class overrides only the callees (k_func,
 # _lower_bound_integrals, _get_omega_dagger), each under its own obligation here.  (Running the assembly once more through the
 # ReLU callees exceeds the kernel's canonicalisation budget: 18 bound indices in one component.)
+
+
+def _mk_ctor_refusals(kind):
+    """documented refusals of the constructor: more than one component; more rows than columns in A; more noise units than
+    columns of A"""
+    def ob(w):
+        AC = SP.mods()["approximate_conditional"]
+        xp = w.xp
+        cls = getattr(AC, LINKS[kind])
+        def build(R, Dy, Da, Dk):
+            A = w.arr("Ab" + str(Da) + str(Dy), R, Dy, Da)
+            M, b = w.arr("Mb" + str(Dy), R, Dy, "Dx"), w.arr("bb" + str(Dy), R, Dy)
+            W = xp.concatenate([w.arr("w0b" + str(Dk), Dk)[:, None], w.arr("wvb" + str(Dk), Dk, "Dx")], axis=1)
+            return cls(M=M, b=b, A=A, W=W)
+        w.raises("R>1-refused", (NotImplementedError,), lambda: build("R", "Dy", "Dy", "Dy"))
+        w.raises("Dy>Da-refused", (NotImplementedError,), lambda: build(1, "Dbig", "Dsmall", "Dsmall"))
+        w.raises("Dk>Da-refused", (NotImplementedError,), lambda: build(1, "Dsmall", "Dsmall", "Dbig"))
+    return ob
+
+
+for _kind in ("exp", "heaviside"):
+    REG.ob(f"{LINKS[_kind]}.__post_init__/refusals", sorts=["R", "Dy", "Dx", "Dsmall", "Dbig"],
+           order={("Dbig", "Dsmall"): True, ("Dsmall", "Dbig"): False, ("Dy", "Dy"): False},
+           sizes=[dict(R=2, Dy=2, Dx=3, Dsmall=2, Dbig=4)],
+           funcs=["approximate_conditional.HeteroscedasticConditional.__post_init__"])(_mk_ctor_refusals(_kind))
+
+
+def _mk_update_omega(kind):
+    """one fixed-point update of the variational parameter (the body of the lax.while_loop): assembled from the real
+    _lower_bound_integrals (own obligations above):  exp / cosh-1: omega' = sqrt(I4 / I2),  ReLU: omega' = I4 / I3"""
+    def ob(w):
+        xp = w.xp
+        if kind == "relu":
+            w.literal_arange = True
+        obj, par = gen_hetero(w, kind, "square")
+        p_x, px = SP.gen_pdf(w, "x", "N", "Dx")
+        y = w.arr("y", "N", "Dy")
+        W_i, w0, wv = _row(w, "wi")
+        a_i = w.arr("ai", "Dy")
+        om = w.pos("om", "N")
+        new = obj._update_omega_star(p_x=p_x, y=y, W_i=W_i, a_i=a_i, omega_star=om)         # REAL
+        lo, hi = obj._lower_bound_integrals(p_x=p_x, y=y, W_i=W_i, a_i=a_i, omega_star=om, compute_fourth_order=True)
+        # (written with the operations of the update itself: the callee values are large; the clause pins the combination)
+        if kind == "relu":
+            w.equal("omega'=I4/I3", new, (hi / lo)[0])
+        else:
+            w.equal("omega'=sqrt(I4/I2)", new, xp.sqrt(hi / lo)[0])
+    return ob
+
+
+for _kind in ("exp", "coshm1", "relu"):
+    _cls = LINKS[_kind]
+    _own = _cls if _kind == "relu" else "HeteroscedasticConditional"
+    REG.ob(f"{_cls}._update_omega_star", sorts=["N", "Dx", "Dy"], order={("Dy", "Dy"): False},
+           funcs=[f"approximate_conditional.{_own}._update_omega_star"],
+           axioms=["a quantity tested with `!= 0` is non-zero"] if _kind == "relu" else [])(_mk_update_omega(_kind))
